@@ -290,6 +290,12 @@ example :
               .node .fresh .list [] ]) := by
   rfl
 
+/-- `no_const_without_const_defaults` instantiated: with every default produced per call no
+    node of the loaded model is owned by the retort (the load succeeds: example above) -/
+example (p : PVal) (h : loadP exW exCfg (fun _ _ => .fresh) 3 (.model "A") (.dict []) = .ok p) :
+    ∀ nd ∈ p.nodes, nd.prov ≠ .const :=
+  no_const_without_const_defaults exW exCfg (fun _ _ => .fresh) (fun _ _ => by simp) 3 _ _ p h
+
 /-- `list[Any]`: a new outer list; the inner list is the argument's -/
 example :
     loadP exW exCfg exDp 3 (.iter .list true .any) (.list [.list [.int 1], .int 2]) =
